@@ -295,13 +295,13 @@ func minimize(sig string, cs []byte) []byte {
 	}
 	for _, part := range []*[]hgen.Step{&c.Base, &c.ExtI, &c.ExtT} {
 		part := part
-		h := hgen.Minimize(hgen.History{Steps: *part}, func(h hgen.History) bool {
+		h := hgen.Minimize(hgen.History{Steps: *part}, ev.Bounded(func(h hgen.History) bool {
 			old := *part
 			*part = h.Steps
 			ok := try(c)
 			*part = old
 			return ok
-		})
+		}))
 		*part = h.Steps
 	}
 	_ = fmt.Sprint
